@@ -221,10 +221,31 @@ func c07Boundary(rt *rapid.T) []string {
 	N := func() string { return strconv.Itoa(rapid.SampledFrom(c07Ints).Draw(rt, "N")) }
 	F := func() string { return rapid.SampledFrom(c07Floats).Draw(rt, "F") }
 	K := func() string { return rapid.SampledFrom(c07Keys).Draw(rt, "K") }
+	// KT: mostly the pre-populated key of the type the command works on (so that boundary arguments meet real data)
+	KT := func(typed string) string {
+		if rapid.IntRange(0, 9).Draw(rt, "typedkey") < 7 {
+			return typed
+		}
+		return K()
+	}
+	// FB: score bounds biased to ranges that select something
+	FB := func(lo bool) string {
+		if rapid.IntRange(0, 9).Draw(rt, "wide") < 5 {
+			if lo {
+				return rapid.SampledFrom([]string{"-inf", "0", "(0", "1"}).Draw(rt, "Flo")
+			}
+			return rapid.SampledFrom([]string{"+inf", "4", "(4", "3"}).Draw(rt, "Fhi")
+		}
+		return rapid.SampledFrom(c07Floats).Draw(rt, "F")
+	}
 	S := func() string { return rapid.SampledFrom([]string{"", "a", "x\r\ny", "-1", "0"}).Draw(rt, "S") }
 	lim := func(c []string) []string {
 		if rapid.Bool().Draw(rt, "lim") {
-			c = append(c, "LIMIT", N(), N())
+			if rapid.Bool().Draw(rt, "limcls") {
+				c = append(c, "LIMIT", strconv.Itoa(rapid.SampledFrom([]int{0, 1, 2, 3, 4}).Draw(rt, "smalloff")), N())
+			} else {
+				c = append(c, "LIMIT", N(), N())
+			}
 		}
 		if rapid.Bool().Draw(rt, "ws") {
 			c = append(c, "WITHSCORES")
@@ -233,33 +254,33 @@ func c07Boundary(rt *rapid.T) []string {
 	}
 	switch rapid.IntRange(0, 27).Draw(rt, "tpl") {
 	case 0:
-		return []string{"GETRANGE", K(), N(), N()}
+		return []string{"GETRANGE", KT("str"), N(), N()}
 	case 1:
-		return []string{"SUBSTR", K(), N(), N()}
+		return []string{"SUBSTR", KT("str"), N(), N()}
 	case 2:
-		return []string{"LRANGE", K(), N(), N()}
+		return []string{"LRANGE", KT("list"), N(), N()}
 	case 3:
-		return []string{"LINDEX", K(), N()}
+		return []string{"LINDEX", KT("list"), N()}
 	case 4:
-		return []string{rapid.SampledFrom([]string{"LPOP", "RPOP"}).Draw(rt, "pop"), K(), N()}
+		return []string{rapid.SampledFrom([]string{"LPOP", "RPOP"}).Draw(rt, "pop"), KT("list"), N()}
 	case 5:
-		c := []string{"ZRANGE", K(), N(), N()}
+		c := []string{"ZRANGE", KT("zset"), N(), N()}
 		if rapid.Bool().Draw(rt, "rev") {
 			c = append(c, "REV")
 		}
 		return lim(c)
 	case 6:
-		return lim([]string{"ZRANGE", K(), F(), F(), "BYSCORE"})
+		return lim([]string{"ZRANGE", KT("zset"), FB(true), FB(false), "BYSCORE"})
 	case 7:
-		return lim([]string{"ZRANGEBYSCORE", K(), F(), F()})
+		return lim([]string{"ZRANGEBYSCORE", KT("zset"), FB(true), FB(false)})
 	case 8:
-		return lim([]string{"ZREVRANGE", K(), N(), N()})
+		return lim([]string{"ZREVRANGE", KT("zset"), N(), N()})
 	case 9:
-		return lim([]string{"ZREVRANGEBYSCORE", K(), F(), F()})
+		return lim([]string{"ZREVRANGEBYSCORE", KT("zset"), FB(false), FB(true)})
 	case 10:
-		return []string{rapid.SampledFrom([]string{"INCRBY", "DECRBY"}).Draw(rt, "incby"), K(), N()}
+		return []string{rapid.SampledFrom([]string{"INCRBY", "DECRBY"}).Draw(rt, "incby"), KT("num"), N()}
 	case 11:
-		return []string{rapid.SampledFrom([]string{"INCR", "DECR"}).Draw(rt, "inc"), K()}
+		return []string{rapid.SampledFrom([]string{"INCR", "DECR"}).Draw(rt, "inc"), KT("num")}
 	case 12:
 		return []string{rapid.SampledFrom([]string{"EXPIRE", "EXPIREAT"}).Draw(rt, "exp"), K(), N()}
 	case 13:
@@ -278,9 +299,9 @@ func c07Boundary(rt *rapid.T) []string {
 	case 16:
 		return []string{"SELECT", N()}
 	case 17:
-		return []string{"ZADD", K(), F(), S()}
+		return []string{"ZADD", KT("zset"), F(), S()}
 	case 18:
-		return []string{"ZINCRBY", K(), F(), S()}
+		return []string{"ZINCRBY", KT("zset"), F(), S()}
 	case 19:
 		return []string{"APPEND", K(), S()}
 	case 20:
